@@ -201,3 +201,139 @@ def top_ty(name):
 def go_schema():
     """JSON description read by the Go driver"""
     return {"types": TYPES, "top": TOP, "envIndex": env_index(), "ns": NS}
+
+
+# ------------------------------------------------------------------------------------------------ resource family (C02 / C08)
+# Additive: nothing above depends on this section.  RES_TYPES are extra schema types used only by the resource family.
+
+RES_TYPES = [
+    record("Ent", [F("id", P("int64"), True), F("name", P("string")), F("note", P("string"), True), F("inner", R("Inner"), True)]),
+    record("Meta", [F("total", P("int32")), F("tag", P("string"), True)]),
+]
+
+
+def _m(kind, name, on_entity=False, params=(), paging=False, ret=None, metadata=None, return_entity=False):
+    d = {"methodType": kind, "name": name, "doc": "", "onEntity": on_entity, "params": list(params),
+         "isPagingSupported": paging, "returnEntity": return_entity}
+    if ret is not None:
+        d["return"] = ret
+    if metadata is not None:
+        d["metadata"] = metadata
+    return d
+
+
+_ENTITY_METHODS = ("get", "update", "partial_update", "delete")
+
+
+def rest(name, schema, simple=False, params=(), paging=False, return_entity=False):
+    return _m("REST_METHOD", name, on_entity=(not simple and name in _ENTITY_METHODS), params=params, paging=paging,
+              ret=schema, return_entity=return_entity)
+
+
+def finder(name, schema, params=(), paging=False, metadata=None):
+    return _m("FINDER", name, params=params, paging=paging, ret=schema, metadata=metadata)
+
+
+def action(name, on_entity=False, params=(), ret=None):
+    return _m("ACTION", name, on_entity=on_entity, params=params, ret=ret)
+
+
+def seg(name, key=None):
+    return {"resourceName": name, "pathKey": None if key is None else {"name": name + "Id", "type": key}}
+
+
+def resource(segs, schema, methods, read_only=(), create_only=()):
+    d = {"namespace": NS + "." + ".".join(s["resourceName"] for s in segs), "doc": "", "sourceFile": "family",
+         "resourcePathSegments": segs, "methods": methods, "readOnlyFields": list(read_only),
+         "createOnlyFields": list(create_only)}
+    if schema is not None:
+        d["resourceSchema"] = schema
+    return d
+
+
+_ALL = ("get", "create", "update", "partial_update", "delete", "get_all", "batch_get", "batch_create", "batch_update",
+        "batch_partial_update", "batch_delete")
+_INNER, _ENT, _META = R("Inner"), R("Ent"), R("Meta")
+_QP = [F("flag", P("bool"), True), F("names", A(P("string")))]
+
+
+def _rests(schema, names, simple=False, with_params=(), paging=("get_all",), return_entity=()):
+    return [rest(n, schema, simple=simple, params=_QP if n in with_params else (), paging=n in paging,
+                 return_entity=n in return_entity) for n in names]
+
+
+RESOURCES = [
+    # collection keyed by int64: all REST methods, finders (params / paging / metadata), actions on collection and entity
+    resource([seg("ints", P("int64"))], _INNER,
+             _rests(_INNER, _ALL, with_params=("get", "create", "batch_get", "delete", "batch_update")) + [
+                 finder("byName", _INNER, [F("name", P("string")), F("limit", P("int32"), True)], paging=True),
+                 finder("plain", _INNER),
+                 finder("paged", _INNER, paging=True, metadata=_META),
+                 finder("byThings", _INNER, [F("inner", R("Inner")), F("ids", A(P("int64"))), F("color", R("Color"), True),
+                                             F("ts", R("Tstr"), True), F("m", M(P("string")), True), F("u", R("U"), True)],
+                        metadata=_META),
+                 action("ping"),
+                 action("count", params=[F("since", P("int64"))], ret=P("int32")),
+                 action("touch", on_entity=True, params=[F("inner", R("Inner"), True), F("list", A(R("Inner")))], ret=_INNER),
+                 action("names", on_entity=True, ret=A(P("string"))),
+                 action("echo", params=[F("s", P("string")), F("y", P("bytes"), True)], ret=P("string")),
+             ]),
+    # return-entity variants
+    resource([seg("rets", P("int64"))], _INNER,
+             _rests(_INNER, ("get", "create", "partial_update", "batch_create"),
+                    return_entity=("create", "partial_update", "batch_create"))),
+    # collection keyed by string (keys with reserved characters)
+    resource([seg("strs", P("string"))], _INNER,
+             _rests(_INNER, _ALL, with_params=("get_all",)) + [
+                 finder("byKey", _INNER, [F("k", P("string"))]),
+                 action("poke", on_entity=True, params=[F("s", P("string"), True)], ret=P("string")),
+             ]),
+    # typeref key, enum key
+    resource([seg("trefs", R("Tlong"))], _INNER, _rests(_INNER, ("get", "create", "delete", "batch_get", "batch_delete"))),
+    resource([seg("enums", R("Color"))], _INNER, _rests(_INNER, ("get", "create", "update", "batch_get", "batch_update"))),
+    # complex key
+    resource([seg("cks", R("CK"))], _INNER,
+             _rests(_INNER, _ALL) + [finder("near", _INNER, [F("k", R("Inner"), True)], paging=True),
+                                      action("mark", on_entity=True, ret=P("bool"))]),
+    # simple resource
+    resource([seg("single")], _INNER,
+             _rests(_INNER, ("get", "update", "partial_update", "delete"), simple=True, with_params=("get",)) + [
+                 action("reset"), action("bump", params=[F("by", P("int32"))], ret=P("int64"))]),
+    # action set
+    resource([seg("tools")], None, [
+        action("echo", params=[F("msg", P("string"))], ret=P("string")),
+        action("noop"),
+        action("sum", params=[F("xs", A(P("int64"))), F("w", M(P("int32")), True)], ret=P("int64")),
+        action("make", params=[F("color", R("Color")), F("fx", R("Fx4"))], ret=_INNER),
+        action("maybe", params=[F("u", R("UN"), True)], ret=R("U")),
+    ]),
+    # sub-resource under a parent (string) key, and a sub-sub-resource
+    resource([seg("strs", P("string")), seg("subs", P("int64"))], _INNER,
+             _rests(_INNER, ("get", "create", "update", "delete", "get_all", "batch_get", "batch_update", "batch_delete")) + [
+                 finder("search", _INNER, [F("q", P("string"))], paging=True),
+                 action("promote", on_entity=True), action("purge", ret=P("int32"))]),
+    resource([seg("strs", P("string")), seg("subs", P("int64")), seg("leaves", P("string"))], _INNER,
+             _rests(_INNER, ("get", "update", "delete", "batch_get", "partial_update")) + [
+                 action("rustle", on_entity=True, params=[F("n", P("int32"))], ret=P("string"))]),
+    resource([seg("strs", P("string")), seg("profile")], _INNER,
+             _rests(_INNER, ("get", "update"), simple=True) + [action("refresh")]),
+    # read-only / create-only fields
+    resource([seg("ros", P("int64"))], _ENT,
+             _rests(_ENT, ("get", "create", "update", "partial_update", "batch_create", "batch_update", "batch_partial_update")),
+             read_only=("id",), create_only=("note",)),
+]
+
+
+def manifest_with_resources(package_root):
+    return {"packageRoot": package_root, "inputDataTypes": TYPES + RES_TYPES, "dependencyDataTypes": [], "resources": RESOURCES}
+
+
+def go_schema_with_resources():
+    """JSON description read by the http driver: the schema types plus the resource specifications"""
+    types = TYPES + RES_TYPES
+    idx = {}
+    for t in types:
+        (kind, d), = t.items()
+        if kind in ("record", "standaloneUnion"):
+            idx[d["name"]] = len(idx)
+    return {"types": types, "top": TOP + ["Ent", "Meta"], "envIndex": idx, "ns": NS, "resources": RESOURCES}
